@@ -36,7 +36,8 @@ CHECKS = {
     "C10": {
         "text": "Coq theorems C10_ident (decision table of parse_ident with error kinds and payloads), C10_accepts, C10_gate (open succeeds only "
                 "if EI_DATA is accepted), C10_ident_error_surfaces, C10_any_open / C10_any_queries / C10_any_common (the any-endian handle equals "
-                "the fixed-spec handle up to the spec tag and every query returns the identical result). Tie: all 256 values of EI_DATA/EI_CLASS/"
+                "the fixed-spec handle up to the spec tag and every query returns the identical result), C10_message_or_source / C10_message_numbers "
+                "(Display of a reported error: own message or wrapped source; rendered numbers read back to the payload). Tie: all 256 values of EI_DATA/EI_CLASS/"
                 "EI_VERSION and magic corruptions x 4 specs on ident and open, error kind+payload compared; any-vs-fixed full-content equivalence "
                 "on generated files. Stream-side gating is covered with C07.",
         "note": STD_NOTE + " NativeEndian is LittleEndian on the build target.",
